@@ -720,6 +720,15 @@ def effective_options(m, b):
         g = group_for(m, b["module"][:i])
         if g:
             levels.append(g["options"])
+    # `counter = X` / `counters = [X, ..]` are other spellings of the per-kind count options
+    def normal(lv):
+        lv = dict(lv)
+        for key in ("counter", "counters"):
+            if key in lv:
+                for kind, val in re.findall(r"(Bytes|Chars|Cycles|Items)Count::new\((\d+)", lv[key]):
+                    lv[kind.lower() + "_count"] = val
+        return lv
+    levels = [normal(lv) for lv in levels]
     for field in ("sample_count", "sample_size", "threads", "max_time", "min_time", "skip_ext_time", "items_count", "bytes_count", "chars_count", "cycles_count"):
         for lv in levels:
             if field in lv:
